@@ -194,7 +194,7 @@ class C20(Check):
             churn_at = [n // 10, n // 2]
         weights = {o: k.choice([0, 1, 2, 4]) for o in
                    ["match_incoming", "save", "patch", "attr_set", "attr_get", "delete_attr", "match_attr", "match_ip", "match_uuid",
-                    "held_patch", "held_attr", "len_all"]}
+                    "held_patch", "held_attr", "len_all", "target_address"]}
         weights["match_incoming"] = max(weights["match_incoming"], 2 if nrec == 6 else 6)
         names = list(weights)
         ops = []
@@ -225,6 +225,8 @@ class C20(Check):
             elif o == "match_uuid":
                 op["rec"] = w.randrange(nrec)
                 op["unknown"] = w.random() < 0.1
+            elif o == "target_address":
+                op["rec"] = w.randrange(nrec)
             if op.get("patch") and last_patch_op is not None and w.random() < 0.15:
                 op["patch"] = dict(last_patch_op["patch"])  # the application applies the patch it built a moment ago to another record as well
                 op["reuse_patch"] = True
@@ -432,6 +434,12 @@ class C20(Check):
                             r2 = st.match_uuid(m["id"])
                             if r2 is not r:
                                 V("C20.identity", f"match_uuid({m['id']}) returned another object (id {getattr(r2, 'id', None)})")
+                    elif o == "target_address":
+                        # the record's read accessor the handlers answer to: the NAT address of a record marked as behind NAT, else its source address
+                        got = r.repeater_target_address()
+                        want = m["s"]["address_nat"] if m["s"]["nat_enabled"] else m["s"]["address_in"]
+                        if got != want or type(got) is not type(want):
+                            V("C20.snapshot", f"repeater_target_address() returned {got!r}, the record's fields say {want!r} (nat_enabled={m['s']['nat_enabled']!r})")
                     elif o == "save":
                         p = real_patch(op["patch"], op.get("reuse_patch"))
                         r2 = st.save(r, p)
